@@ -52,7 +52,7 @@ def spec(tier, seed):
                 encodes=("sierradb_protocol::ExpectedVersion::fmt", "sierradb_protocol::ExpectedVersion::from_str"), timeout_s=900),
         Harness("c25_vacuity_witness", expect_fail=True, obligation="twin: assert(false) after the same assumptions must be reachable", timeout_s=120),
     ]
-    u = Unit("c25", generate, hs, jobs=8)
+    u = Unit("c25", generate, hs, jobs=4, workers=2)
     return PropSpec(
         "C25", [u],
         assumptions=[
